@@ -139,3 +139,18 @@ add("C10", "model_checking", "vh",
     "exhaustive enumeration of operator argument lists against a reference cost model (RefCost), per-call conformance",
     "30 generic operators with every argument list of small arity over a boundary alphabet (padded forms, 257..2100-byte operands), accumulator-growing/shrinking sequences, the repository's vectors and constructed argument lists for the BLS / secp / keccak / coinid operators, and sha256tree on every small tree in fresh / hash-consed / atom-shared form plus doubling to 2^15|2^19 shared leaves: under both cost models (and MALACHITE for the division family), in up to three atom representations, directly and inside run_program, the charged cost of every successful call must equal RefCost.",
     "RefCost (harness/src/refcost.rs) is written from docs/cost-model.md, docs/sha256tree.md and the operators' documentation comments with its own copy of the constants; it is validated at every start-up against every operator vector in op-tests (v1 and v2). Where the markdown and the vectors disagree (logand/logior/logxor, +/- argument sizing) the vectors win and the evidence carries a documentation note.")
+
+add("C26", "exploration", "vh+pyleg",
+    "exhaustive conformance of the freshly built extension module against the Rust harness on enumerated cases",
+    "The harness enumerates programs (all opcodes over constants, guards, repository vectors, families) x every single flag bit 0..31, MEMPOOL_MODE, all-ones, pairs of defined bits x budgets {0,1,C,C-1}, malformed serializations, every small tree and every short byte string / back-reference stream / 2026 blob, and records what the Rust core returns (same truncated flags, same allocator limit). The python leg replays every case through run_serialized_chia_program, ser_*/deser_*/deser_auto/serialized_length/deserialize_as_tree and walks every returned LazyNode through .atom/.pair: cost, result tree, or exact error message and error node must be equal.",
+    "The wheel is built as a plain cdylib from /repo's working tree (no maturin) and imported under python 3.11. Both sides run the same clvmr code in different builds, so this check targets the binding layer (flag truncation, allocator limit, error adaptation, LazyNode views, argument plumbing).")
+
+add("C27", "exploration", "pyleg",
+    "exhaustive tree x storage-kind enumeration in python",
+    "Every tree of TREES(4|5, {'aaaa','bbbb',''}) wrapped in six CLVMStorage implementations (plain objects, Program.to, Program.from_bytes, LazyNode, a wrapper whose pair accessor builds fresh children on every access, CLVMTree) goes through clvm_tree_to_lazy_node, ser_2026, deser_2026 and an atom/pair walk and must serialize to the source bytes.",
+    "CPython's allocator reuses freed addresses deterministically for these small objects, which is what makes the (now fixed) address-reuse defect reproducible; object addresses themselves cannot be scripted.")
+
+add("C28", "exploration", "pyleg",
+    "exhaustive conformance of the pure-python helpers against the Rust core and independent oracles",
+    "sexp_to_bytes and the forced pure-python deserialize_as_tuples fallback on every tree of TREES(4|5,A6); sexp_from_stream on ~33k byte strings (all short strings, every length-prefix class with size bytes over {00,01,ff} up to 7 bytes and short/exact/long bodies) against the Rust classic decoder; int_to_bytes/int_from_bytes on every integer in +-2^12|2^17 and +-2^k+-d (k<=130) against an independent minimal encoder and the Rust interpreter; curry/uncurry/curry_hash/run-equivalence on 20|40 modules x 260 argument lists.",
+    "Independent oracles are ~100 lines of python at the top of pyref/pyleg.py (reference classic codec, hashlib tree hash, minimal integer encoder).")
